@@ -67,4 +67,4 @@ func Release(site string) {
 // TimerSlack is added to zero-length waits of polling loops: on the
 // simulator's fake clock a timer fires exactly on time, so a loop that waits
 // for "now > deadline" with a zero wait would spin forever at one instant.
-const TimerSlack = 1 // nanosecond
+const TimerSlack = 1000000 // nanoseconds (1 ms)
